@@ -67,22 +67,22 @@ def c06_runs(tier):
             add(1, prog, 'C', 1, 2, t0=ANY, budget=30)
         for prog in _multisets(KINDS, 2):
             add(1, prog, ANY, 0, 1, budget=20)
-        # two workers, N+1 outer tasks and the remaining shapes, the pool on its own (T0 idle)
-        for prog in _multisets('TCL', 3) + ['CCF', 'CFF']:
-            add(2, prog, 'C', 1, 1, t0='i', budget=8)
-        for prog in ('CC', 'CF', 'FF'):
-            add(2, prog, 'C', 3, 1, t0='i', budget=8)
-            add(2, prog, 'T', 1, 1, t0='i', budget=8)
-        for prog in ('PP', 'BB', 'CP', 'CB', 'FP'):
-            add(2, prog, 'C', 1, 1, t0='i', budget=8)
-        for prog in ('CC', 'TC'):
-            add(2, prog, 'C', 1, 1, t0='i', k=2, budget=8)
+        # two workers, N+1 outer tasks and the remaining shapes, the pool on its own (T0 idle); time-boxed: a run needs
+        # about 10 s just to start when the machine is overloaded, so few runs with 20 s each rather than many short ones
+        for prog in ('TCL', 'CCC', 'CCF', 'TTC'):
+            add(2, prog, 'C', 1, 1, t0='i', budget=20)
+        add(2, 'CC', 'C', 3, 1, t0='i', budget=20)
+        add(2, 'CF', 'T', 1, 1, t0='i', budget=20)
+        add(2, 'FF', 'C', 3, 1, t0='i', budget=20)
+        for prog in ('CP', 'BB'):
+            add(2, prog, 'C', 1, 1, t0='i', budget=20)
+        add(2, 'CC', 'C', 1, 1, t0='i', k=2, budget=20)
     return runs
 
 
 reg('C06', level='model_checking', runs=c06_runs, quick_budget_s=240, thorough_budget_s=1300,
     technique='stateless model checking of real pools running acyclic two-level nesting programs: every worker ends up inside a wait while T0 either waits on the outer set or stays idle; all interleavings up to a deviation bound with free futex-waiter picks; progress oracle',
-    level_text='Programs from the grammar outer set in {TaskSet, ConcurrentTaskSet heavy, ConcurrentTaskSet lightweight} x outer tasks each creating one inner construct from {TaskSet, ConcurrentTaskSet heavy/lightweight, async futures, waiting parallel_for, scheduleBulk+wait} with 1-2 leaves and waiting on it, outer and/or inner submissions optionally forced to the queue, T0 waiting on the outer set (a helper) or idle until the outer tasks ended (the pool on its own); pools of 1 and 2 workers with N and N+1 outer tasks (plus a zero-thread pool); every interleaving with <=1 deviation, futex waiter picks free, backstop timeouts allowed. Quick: N=1 every single kind x 12 (outer kind, forcing, T0 role) variants, every pair containing a heavy set or a future; N=2 three shapes (time-boxed). Thorough: the whole grammar for N=1 with 1-2 outer tasks, bound 2 on the smallest N=1 shapes, all pairs over {T,C,L,F} x outer kinds and all triples over {T,C,L} for N=2. Oracle: the outer wait returns and the pool can be destroyed - a deadlock or livelock verdict, or 3 s of virtual time (30 backstop periods) without an end, is the violation; coverage guard: the state "every worker is inside an inner wait" is reached, also with a non-empty steal ring.',
+    level_text='Programs from the grammar outer set in {TaskSet, ConcurrentTaskSet heavy, ConcurrentTaskSet lightweight} x outer tasks each creating one inner construct from {TaskSet, ConcurrentTaskSet heavy/lightweight, async futures, waiting parallel_for, scheduleBulk+wait} with 1-2 leaves and waiting on it, outer and/or inner submissions optionally forced to the queue, T0 waiting on the outer set (a helper) or idle until the outer tasks ended (the pool on its own); pools of 1 and 2 workers with N and N+1 outer tasks (plus a zero-thread pool); every interleaving with <=1 deviation, futex waiter picks free, backstop timeouts allowed. Quick: N=1 every single kind x 12 (outer kind, forcing, T0 role) variants, every pair containing a heavy set or a future; N=2 three shapes (time-boxed). Thorough: the whole grammar for N=1 with 1-2 outer tasks, bound 2 on the smallest N=1 shapes, all pairs over {T,C,L,F} with T0 waiting and idle, and ten further shapes (three outer tasks, parallel_for / bulk inners, forced inners, two leaves) with T0 idle for N=2. Oracle: the outer wait returns and the pool can be destroyed - a deadlock or livelock verdict, or 3 s of virtual time (30 backstop periods) without an end, is the violation; coverage guard: the state "every worker is inside an inner wait" is reached, also with a non-empty steal ring.',
     level_note='SC interleavings; nesting depth 2 only; timeouts are allowed to fire (the statement is about termination, not latency); runs that hit their time budget are reported as not exhaustive; a TSan and an ASan leg re-run two small shapes.',
     design_ref='DESIGN.md section 4, C06', assumptions=MC_ASSUME, rule=RULE,
     guards=[need_cover('all_workers_in_wait', 'steal_ring_nonempty_at_wait', 't0_in_inner_wait', 't0_idle', 'inner_T', 'inner_C', 'inner_L', 'inner_F', 'inner_P', 'inner_B'),
